@@ -152,6 +152,36 @@ pub fn cases(rng: &mut Rng, tier: &str) -> (Vec<Case>, bool) {
         let checks = (0..ops.len()).filter(|i| ops[*i].starts_with("wsubmit")).map(|i| format!("web-ok {}", i)).collect();
         cases.push(Case { ops, checks, tag: "long-listing".into(), nontrivial: true, show: format!("LIST of {} lines, then NEW, LIST", len) });
     }
+    // every session so far, once more on the page script itself: `class Interpreter` and the submit handler of
+    // abasic-web/ts/main.ts run under node and drive the real adapter; they must agree with the transliteration
+    let every = if tier == "thorough" { 4 } else { 12 };
+    let n_cases = cases.len();
+    for (ci, c) in cases.iter_mut().enumerate() {
+        let fixed_family = c.tag == "string-pool" || c.tag == "long-listing";
+        if !(fixed_family && (tier == "thorough" || ci % 3 == 0)) && ci % every != 0 {
+            continue;
+        }
+        if c.tag == "long-listing" && c.ops.len() > 400 {
+            continue;
+        }
+        let a1 = 2; // after wnew, wseed
+        let a2 = c.ops.len() - 1;
+        let mut r: Vec<String> = vec!["rnew".to_string()];
+        let loads = c.ops.get(2).map(|o| o.starts_with("wload")).unwrap_or(false);
+        if !loads {
+            r.push("rstart".to_string());
+        }
+        r.push(c.ops[1].replacen("wseed", "rseed", 1));
+        let b1 = c.ops.len() + r.len();
+        for o in &c.ops[2..] {
+            r.push(format!("r{}", &o[1..]));
+        }
+        c.ops.extend(r);
+        let b2 = c.ops.len() - 1;
+        c.checks.push(format!("page-script-same {}-{} {}-{}", a1, a2, b1, b2));
+        c.tag = format!("{}+script", c.tag);
+    }
+    let _ = n_cases;
     // NEW then a fixed probe session, against the same probes on a fresh page
     let m = if tier == "thorough" { 300 } else { 40 };
     for _ in 0..m {
